@@ -1,5 +1,6 @@
 import RR.Model.RingDriver
 import RR.Model.WaitDriver
+import RR.Model.HdlcDriver
 import RR.Model.BlockDriver
 import RR.Model.SchedDriver
 import RR.Model.ConcDriver
@@ -17,6 +18,7 @@ def dispatch (line : String) : String :=
   | "sched" :: rest => SchedDriver.handle (" ".intercalate rest)
   | "blk" :: rest => BlockDriver.handle (" ".intercalate rest) BlockDriver.registry
   | "repeat" :: rest => BlockDriver.handleRepeat (" ".intercalate rest)
+  | "hdlc" :: rest => HdlcDriver.handle (" ".intercalate rest)
   | "wait" :: rest => WaitDriver.handle (" ".intercalate rest)
   | _ => "bad-model"
 
